@@ -137,6 +137,33 @@ def b64std (b : Bytes) : Bytes := b64enc b64stdAlphabet true b
 
 def quote (b : Bytes) : Bytes := 34 :: b ++ [34]
 
+def hexDigit (n : Nat) : UInt8 := if n < 10 then (48 + n).toUInt8 else (87 + n).toUInt8
+
+/-- one byte of a string under `encoding/json`'s escaping with `escapeHTML` (what `json.Marshal`
+    does): `"` and `\`, the short forms `\n \r \t`, `\u00XX` for the other control bytes and for
+    `<`, `>`, `&`; everything else (0x7f and the bytes of multi-byte runes included) as it is -/
+def jsonEscByte (b : UInt8) : Bytes :=
+  if b == 34 then [92, 34] else if b == 92 then [92, 92]
+  else if b == 10 then [92, 110] else if b == 13 then [92, 114] else if b == 9 then [92, 116]
+  else if b < 32 || b == 60 || b == 62 || b == 38 then
+    [92, 117, 48, 48, hexDigit (b.toNat / 16), hexDigit (b.toNat % 16)]
+  else [b]
+
+/-- the body of a JSON string as `json.Marshal` writes it, for valid UTF-8: bytewise as above,
+    and U+2028 / U+2029 (E2 80 A8 / E2 80 A9) as `\u2028` / `\u2029` -/
+def jsonEsc : Bytes → Bytes
+  | [] => []
+  | b :: c :: d :: rest2 =>
+      if b == 226 && c == 128 && (d == 168 || d == 169) then
+        [92, 117, 50, 48, 50, if d == 168 then 56 else 57] ++ jsonEsc rest2
+      else jsonEscByte b ++ jsonEsc (c :: d :: rest2)
+  | b :: rest => jsonEscByte b ++ jsonEsc rest
+termination_by l => l.length
+decreasing_by all_goals simp <;> omega
+
+/-- `json.Marshal` of a string -/
+def quoteEsc (b : Bytes) : Bytes := quote (jsonEsc b)
+
 def joinComma : List Bytes → Bytes
   | [] => []
   | [x] => x
@@ -175,6 +202,7 @@ inductive KeyKind where
   | uint    -- Go `uint` (as u64)
   | sk      -- struct `{A string}`: ordered by, and layered on, its marshaled form
   | skc     -- struct key of a tree with a CUSTOM marshaler: marshaled form `"c:<letters>"`
+  | strx    -- string: the five letters followed by a fragment that `encoding/json` escapes (or not)
   deriving Repr, DecidableEq, Inhabited
 
 inductive ValKind where
@@ -185,6 +213,7 @@ inductive ValKind where
   | iface   -- struct with an `interface{}` field holding a slice: `{"X":["<digits>"]}`
   | nb      -- `[]byte` as above, except 1 is the nil slice (`null`) and 2 the empty slice (`""`)
   | long    -- long string: `<digits>-` and filler; marshaled length 127, 128, 129, 16383, 16384, 16385 (v % 6)
+  | esc     -- string `<digits>-` followed by a fragment that `encoding/json` escapes (or not)
   deriving Repr, DecidableEq, Inhabited
 
 namespace Codec
@@ -195,6 +224,14 @@ def i64bias : Nat := 1048576
 def strKey (k : Nat) : Bytes :=
   [k / 456976 % 26, k / 17576 % 26, k / 676 % 26, k / 26 % 26, k % 26].map fun d => (97 + d).toUInt8
 
+/-- fragments around `encoding/json`'s string escaping: `<` `>` `&` `"` `\` LF TAB CR 0x01 0x1f 0x7f,
+    U+00E9, U+2028, U+2029, `/`, a mixed text, a CJK pair, an astral rune -/
+def escFrags : List Bytes :=
+  [[60], [62], [38], [34], [92], [10], [9], [13], [1], [31], [127], [195, 169], [226, 128, 168], [226, 128, 169],
+   [47], [97, 60, 98, 38, 99, 62, 100], [230, 151, 165, 230, 156, 172], [240, 159, 152, 128]]
+
+def escFrag (n : Nat) : Bytes := escFrags[n % 18]!
+
 /-- 3 bytes big-endian: order-preserving under `bytes.Compare` -/
 def bytesKey (k : Nat) : Bytes := [(k / 65536 % 256).toUInt8, (k / 256 % 256).toUInt8, (k % 256).toUInt8]
 
@@ -202,6 +239,7 @@ def bytesKey (k : Nat) : Bytes := [(k / 65536 % 256).toUInt8, (k / 256 % 256).to
 def keyRaw (kk : KeyKind) (k : Nat) : Bytes :=
   match kk with
   | .str => strKey k
+  | .strx => strKey k ++ escFrag k
   | .bytes => bytesKey k
   | .sk => str "{\"A\":" ++ quote (strKey k) ++ str "}"
   | .skc => quote ([99, 58] ++ strKey k)
@@ -215,6 +253,7 @@ def keyBytes (kk : KeyKind) (k : Nat) : Bytes :=
   | .sk => str "{\"A\":" ++ quote (strKey k) ++ str "}"
   | .skc => quote ([99, 58] ++ strKey k)
   | .str => quote (strKey k)
+  | .strx => quoteEsc (strKey k ++ escFrag k)
   | .bytes => quote (b64std (bytesKey k))
 
 /-- `json.Marshal(value)` -/
@@ -224,6 +263,7 @@ def valBytes (vk : ValKind) (v : Nat) : Bytes :=
   | .bytes => quote (b64std (digits v))
   | .nb => if v = 1 then litNull else if v = 2 then [34, 34] else quote (b64std (digits v))
   | .str => quote (digits v)
+  | .esc => quoteEsc (digits v ++ 45 :: escFrag v)
   | .ptr => digits v
   | .iface => str "{\"X\":[" ++ quote (digits v) ++ str "]}"
   | .long =>
